@@ -38,7 +38,9 @@ SCOPE = [
     ("e2fsck/pass2.c", ["check_dir_block", "parse_int_node", "salvage_directory", "check_dot", "check_dotdot"]),
     ("lib/ext2fs/swapfs.c", ["ext2fs_swap_ext_attr", "ext2fs_swap_inode_full"]),
 ]
-PROGRAM_OF = {"misc/e2undo.c": "e2undo", "debugfs/journal.c": "debugfs"}
+PROGRAM_OF = {"misc/e2undo.c": "e2undo", "debugfs/journal.c": "debugfs", "debugfs/htree.c": "debugfs", "debugfs/logdump.c": "debugfs"}
+# dumpers of the same on-disk structures (debugfs read-only commands): judged by the absolute rule C06.c only
+BOUND_EXTRA = [("debugfs/htree.c", None), ("debugfs/logdump.c", None)]
 
 
 def collect(world, thorough=False):
@@ -72,6 +74,8 @@ def collect(world, thorough=False):
                     if " < " in sh or " <= " in sh:
                         gsites.setdefault((fkey, sh), set()).add(bid)
             for (node, kind, op, src, expr) in ft.sinks():
+                if kind == "bound":
+                    continue        # judged absolutely by C06.c
                 srcs = ",".join(sorted(src))
                 key = (fkey, kind, op, srcs)
                 g = 0
@@ -157,6 +161,72 @@ def run(world, rep, tier, only=None):
     rep.extra["sinks_now"] = len(sinks)
     rep.extra["guards_now"] = len(guards)
     rep.extra["unguarded_reference_sinks"] = sum(1 for k in rs if rs[k] == 0)
+
+    # ------------------------------------------------------------------ C06.c a count from the disk that bounds an index is range-checked
+    # `for (i = 0; i < count; i++) ... ent[i]` with count read from the block being parsed walks as far as the disk says.
+    # Every such bound (in the anchored parsers and in the debugfs dumpers of the same structures) must have passed
+    # a comparison of its own - a range check or the test of a clamp - on every path to the loop; the loop's own
+    # `i < count` does not count.
+    n_b = 0
+    for (file, names) in SCOPE + BOUND_EXTRA:
+        prog = world.program(PROGRAM_OF.get(file, "e2fsck"), plain=True)
+        fns = prog.fns_in_file(file)
+        if names is not None:
+            fns = [f for f in fns if f.name in names]
+        for fn in fns:
+            ft = taint.FnTaint(fn)
+            occ = {}
+            for (node, kind, op, src, expr) in ft.sinks():
+                if kind != "bound":
+                    continue
+                n_b += 1
+                key = T.pp(expr)[:30]
+                occ[key] = occ.get(key, 0) + 1
+                chk = ft.bound_checks(node, expr)
+                rep.ob("C06.c", "%s:%s:bound %s of an index is range-checked#%d" % (fn.file, fn.name, key, occ[key] - 1), bool(chk),
+                       "`%s` (line %d) limits an index/pointer walk and derives from %s: %d dominating comparison(s) on it" %
+                       (T.pp(expr)[:40], node.line, ",".join(sorted(src))[:80], len(chk)))
+    rep.floor("C06.c disk-derived loop bounds of an index", n_b, 5)
+
+    # ------------------------------------------------------------------ C06.d the walks over the log are bounded
+    # The scan of the journal ends at a block with the wrong magic, sequence or checksum; a crafted log need not
+    # contain one (revoke blocks carry no obligation to advance the sequence).  Each unbounded walk therefore needs
+    # a progress measure: a counter incremented on every turn and tested, on every turn, against a length the loop
+    # does not change, with an outcome that leaves the loop.
+    n_d = 0
+    for (pn, fname, file, reader) in (("e2fsck", "do_one_pass", "e2fsck/recovery.c", "jread"),
+                                      ("debugfs", "do_one_pass", "e2fsck/recovery.c", "jread"),
+                                      ("debugfs", "dump_journal", "debugfs/logdump.c", "read_journal_block")):
+        prog = world.program(pn)
+        fn = prog.fn(fname, file) if prog.has_fn(fname, file) else prog.fn(fname)
+        heads = set()
+        for n in calls_to(fn, reader):
+            hb = loop_head(fn, n)
+            if hb is None:
+                continue
+            t = fn.blocks[hb].get("t") or {}
+            if t.get("k") == "while" and T.const(t.get("c")) not in (None, 0):
+                heads.add(hb)           # while (1)
+        for hb in sorted(heads):
+            n_d += 1
+
+            def scan_only(n, si, m, _f=fn):
+                lit = _f.literal(n.bid)
+                if not lit:
+                    return True
+                a = T.strip(lit[0])
+                truth = lit[1] if si == 0 else (not lit[1])
+                if T.path(a) == "pass":
+                    return not truth            # PASS_SCAN is 0
+                if isinstance(a, dict) and a.get("k") == "b" and a.get("o") == "==" and T.path(a.get("l")) == "pass" and \
+                        T.macros(a.get("r") or {}) & {"PASS_REVOKE", "PASS_REPLAY"}:
+                    return not truth
+                return True
+            ce = loop_counter_exits(fn, hb, scan_only if fname == "do_one_pass" else None)
+            rep.ob("C06.d", site(fn, "unbounded walk over the log has a progress counter[%s]" % pn), bool(ce),
+                   "`while (1)` around %s(): counters incremented and tested against a loop-invariant length on every turn%s: %s" %
+                   (reader, " of the scan pass" if fname == "do_one_pass" else "", [(c, n.line) for c, n, b in ce]))
+    rep.floor("C06.d unbounded walks over the log", n_d, 3)
 
     # C06.b cursor lifetime in the rbtree bitmap — shared with C16.b
     try:
